@@ -70,3 +70,66 @@ Theorem bcd_epoch_keeps_model_fit_consistent : forall (prox_1group : list R -> R
   Cons n X w' c Xw' /\ length w' = length w.
 Proof. exact bcd_epoch_preserves_cons. Qed.
 Print Assumptions bcd_epoch_keeps_model_fit_consistent.
+
+(* ProxNewton (no intercept): the regenerated backtracking line search keeps the model fit consistent whatever step it ends
+   on, for any penalty value and raw gradient, when the direction pair is consistent (X_delta_w = X_ws delta_w); and the
+   gradient it hands back is the working-set gradient at the point it hands back *)
+Require Import SK.Gen.KernPN SK.Lemmas.PnKernels.
+Theorem prox_newton_line_search_keeps_model_fit_consistent :
+  forall (pen_value : list R -> res R) (raw_grad : list R -> list R -> res (list R)) (n : nat) (X : list (list R)) (c y : list R),
+  wf_X n X -> forall w Xw delta Xdelta ws w' Xw' g,
+  length w = length X -> NoDup ws -> Forall (fun j => (0 <= j)%Z) ws ->
+  length Xdelta = n -> (forall i, (i < n)%nat -> nth i Xdelta 0 = dir_lin X ws delta i) ->
+  Cons n X w c Xw ->
+  @_backtrack_line_search__fit_intercept_False R _ pen_value raw_grad X y w Xw delta Xdelta ws = Ok (w', Xw', g) ->
+  Cons n X w' c Xw' /\ length w' = length w /\
+  (g = nil \/ exists wp, slice w' 0%Z (zlen X) = Ok wp /\ @pn_construct_grad R _ raw_grad X y wp Xw' ws = Ok g).
+Proof. exact line_search_keeps_consistency_and_returns_current_gradient. Qed.
+Print Assumptions prox_newton_line_search_keeps_model_fit_consistent.
+
+(* ProxNewton (no intercept), both working-set strategies: the REGENERATED descent-direction kernel returns a consistent pair
+   (X_delta_w = X_ws delta_w) whatever the prox, the Hessian, the stopping rule and the number of sweeps; hence one whole
+   prox-Newton iteration -- direction, then line search -- keeps Xw = X w + c *)
+Require Import SK.Lemmas.PnDirection.
+Theorem prox_newton_direction_pair_is_consistent_subdiff :
+  forall (raw_hessian : list R -> list R -> res (list R)) (prox_1d : R -> R -> Z -> res R) (n : nat) (X : list (list R)) (y : list R),
+  wf_X n X -> mrows X = Z.of_nat n -> forall (subdiff : list R -> list R -> list Z -> res (list (Ext R)))
+    w_epoch Xw_epoch grad_ws ws tol delta Xdelta lipv,
+  Forall (fun j => (0 <= j)%Z) ws ->
+  @_descent_direction__fit_intercept_False__ws_strategy_subdiff R _ raw_hessian prox_1d subdiff X y w_epoch Xw_epoch grad_ws ws tol
+    = Ok (delta, Xdelta, lipv) ->
+  length Xdelta = n /\ forall i, (i < n)%nat -> nth i Xdelta 0 = dir_lin X ws delta i.
+Proof. exact descent_direction_subdiff_consistent. Qed.
+Print Assumptions prox_newton_direction_pair_is_consistent_subdiff.
+
+Theorem prox_newton_direction_pair_is_consistent_fixpoint :
+  forall (raw_hessian : list R -> list R -> res (list R)) (prox_1d : R -> R -> Z -> res R) (n : nat) (X : list (list R)) (y : list R),
+  wf_X n X -> mrows X = Z.of_nat n -> forall w_epoch Xw_epoch grad_ws ws tol delta Xdelta lipv,
+  Forall (fun j => (0 <= j)%Z) ws ->
+  @_descent_direction__fit_intercept_False__ws_strategy_fixpoint R _ raw_hessian prox_1d X y w_epoch Xw_epoch grad_ws ws tol
+    = Ok (delta, Xdelta, lipv) ->
+  length Xdelta = n /\ forall i, (i < n)%nat -> nth i Xdelta 0 = dir_lin X ws delta i.
+Proof. exact descent_direction_fixpoint_consistent. Qed.
+Print Assumptions prox_newton_direction_pair_is_consistent_fixpoint.
+
+Theorem prox_newton_iteration_keeps_model_fit_consistent_subdiff :
+  forall (raw_hessian raw_grad : list R -> list R -> res (list R)) (prox_1d : R -> R -> Z -> res R) (pen_value : list R -> res R)
+    (subdiff : list R -> list R -> list Z -> res (list (Ext R))) (n : nat) (X : list (list R)) (c y : list R),
+  wf_X n X -> mrows X = Z.of_nat n -> forall w Xw grad_ws ws tol delta Xdelta lipv w' Xw' g,
+  length w = length X -> NoDup ws -> Forall (fun j => (0 <= j)%Z) ws -> Cons n X w c Xw ->
+  @_descent_direction__fit_intercept_False__ws_strategy_subdiff R _ raw_hessian prox_1d subdiff X y w Xw grad_ws ws tol = Ok (delta, Xdelta, lipv) ->
+  @_backtrack_line_search__fit_intercept_False R _ pen_value raw_grad X y w Xw delta Xdelta ws = Ok (w', Xw', g) ->
+  Cons n X w' c Xw' /\ length w' = length w.
+Proof. exact pn_iteration_subdiff_keeps_consistency. Qed.
+Print Assumptions prox_newton_iteration_keeps_model_fit_consistent_subdiff.
+
+Theorem prox_newton_iteration_keeps_model_fit_consistent_fixpoint :
+  forall (raw_hessian raw_grad : list R -> list R -> res (list R)) (prox_1d : R -> R -> Z -> res R) (pen_value : list R -> res R)
+    (n : nat) (X : list (list R)) (c y : list R),
+  wf_X n X -> mrows X = Z.of_nat n -> forall w Xw grad_ws ws tol delta Xdelta lipv w' Xw' g,
+  length w = length X -> NoDup ws -> Forall (fun j => (0 <= j)%Z) ws -> Cons n X w c Xw ->
+  @_descent_direction__fit_intercept_False__ws_strategy_fixpoint R _ raw_hessian prox_1d X y w Xw grad_ws ws tol = Ok (delta, Xdelta, lipv) ->
+  @_backtrack_line_search__fit_intercept_False R _ pen_value raw_grad X y w Xw delta Xdelta ws = Ok (w', Xw', g) ->
+  Cons n X w' c Xw' /\ length w' = length w.
+Proof. exact pn_iteration_fixpoint_keeps_consistency. Qed.
+Print Assumptions prox_newton_iteration_keeps_model_fit_consistent_fixpoint.
